@@ -156,3 +156,48 @@ package filterstorage
 //@   loop 1 invariant forall i int :: 0 <= i && i <= #i && inst(s, c, i) ==>
 //@             old(len(compConf.RuleLists)) <= dstOf[i] && dstOf[i] < len(compConf.RuleLists) && compConf.RuleLists[dstOf[i]] == s.ruleLists[c.IDs[i]]
 //@   loop 1 invariant forall p int, q int :: old(len(compConf.RuleLists)) <= p && p < q && q < len(compConf.RuleLists) ==> srcOf[p] < srcOf[q]
+
+// ---------------------------------------------------------------------------
+// C02: "for any combination of enabled ... safety filters": a safety filter
+// gets into the composite's configuration exactly when its own switch (and the
+// switch of its group) is on; parental control additionally only outside the
+// pause schedule.  No configuration at all gives the filter that filters
+// nothing.
+//@ import serviceblock github.com/AdguardTeam/AdGuardDNS/internal/filter/internal/serviceblock
+//@ import time time
+//@ func (*Default).setSafeBrowsing
+//@   property C02
+//@   requires s != nil && compConf != nil && c != nil
+//@   modifies compConf.SafeBrowsing, compConf.NewRegisteredDomains
+//@   ensures dangerous-domains-exactly-when-switched-on: compConf.SafeBrowsing == (c.Enabled && c.DangerousDomainsEnabled ? s.dangerous : old(compConf.SafeBrowsing))
+//@   ensures newly-registered-exactly-when-switched-on: compConf.NewRegisteredDomains == (c.Enabled && c.NewlyRegisteredDomainsEnabled ? s.newlyRegistered : old(compConf.NewRegisteredDomains))
+
+// lastPause: what the pause schedule said about the current time.
+//@ ghost lastPause bool
+//@ func (*filter.ConfigSchedule).Contains
+//@   modifies lastPause
+//@   ensures ok == lastPause
+//@ func (*serviceblock.Filter).RuleLists
+//@   modifies nothing
+//@ pred parentalOn(c *filter.ConfigParental) = c.Enabled && (c.PauseSchedule == nil || !lastPause)
+//@ func (*Default).setParental
+//@   property C02
+//@   requires s != nil && ref(s.clock) != 0 && compConf != nil && c != nil
+//@   modifies compConf.AdultBlocking, compConf.GeneralSafeSearch, compConf.YouTubeSafeSearch, compConf.ServiceLists, lastPause
+//@   ensures adult-blocking-exactly-when-switched-on-and-not-paused: compConf.AdultBlocking == (parentalOn(c) && c.AdultBlockingEnabled ? s.adult : old(compConf.AdultBlocking))
+//@   ensures general-safe-search-exactly-when-switched-on-and-not-paused: compConf.GeneralSafeSearch == (parentalOn(c) && c.SafeSearchGeneralEnabled ? s.safeSearchGeneral : old(compConf.GeneralSafeSearch))
+//@   ensures youtube-safe-search-exactly-when-switched-on-and-not-paused: compConf.YouTubeSafeSearch == (parentalOn(c) && c.SafeSearchYouTubeEnabled ? s.safeSearchYouTube : old(compConf.YouTubeSafeSearch))
+//@   ensures no-blocked-services-when-off-or-paused: !parentalOn(c) ==> compConf.ServiceLists == old(compConf.ServiceLists)
+
+//@ func (*Default).forClient
+//@   modifies heap, srcOf, dstOf, lastPause
+//@   ensures ref(f) != 0
+//@ func (*Default).forGroup
+//@   modifies heap, srcOf, dstOf, lastPause
+//@   ensures ref(f) != 0
+//@ func (*Default).ForConfig
+//@   property C02
+//@   requires s != nil
+//@   maypanic
+//@   modifies heap, srcOf, dstOf, lastPause
+//@   ensures no-configuration-no-filtering: c == nil ==> istype(f, filter.Empty)
